@@ -53,7 +53,8 @@ def gen(rng):
         variants.append(pats)
     # ECU variants may define their own identification services (same names, same request bytes) whose
     # responses carry the value one byte later
-    layouts = [rng.choice([0, 0, 1]) if flavour == "ecu" else 0 for _ in range(nvar)]
+    # (layout 2: as layout 1, and the services of the variant send other request bytes -- 22 F2 j -- under the same names)
+    layouts = [rng.choice([0, 0, 1, 2]) if flavour == "ecu" else 0 for _ in range(nvar)]
     # short names of the identification services: plain, starting with a digit (legal in ODX), or names of list methods
     return dict(flavour=flavour, services=svcs, variants=variants, layouts=layouts, names=rng.choice([0, 0, 1, 2]))
 
@@ -135,7 +136,7 @@ def emit(case):
             px = "".join("<ECU-VARIANT-PATTERN><MATCHING-PARAMETERS>" + "".join(mp(p, "MATCHING-PARAMETER") for p in pat) +
                          "</MATCHING-PARAMETERS></ECU-VARIANT-PATTERN>" for pat in pats)
             local = ""
-            if case.get("layouts", [0] * 99)[i] == 1:
+            if case.get("layouts", [0] * 99)[i] in (1, 2):
                 lsvc = lreq = lres = ""
                 for s in case["services"]:
                     j = s["j"]
@@ -143,7 +144,7 @@ def emit(case):
                     refs, res = responses(f"EV{i}", j, s["shape"], rev)
                     lsvc += (f'<DIAG-SERVICE ID="EV{i}.svc{j}"><SHORT-NAME>{svc_name(case, j)}</SHORT-NAME><REQUEST-REF ID-REF="EV{i}.rq{j}"/>'
                              f'<POS-RESPONSE-REFS>{refs}</POS-RESPONSE-REFS></DIAG-SERVICE>')
-                    lreq += (f'<REQUEST ID="EV{i}.rq{j}"><SHORT-NAME>rq{j}</SHORT-NAME><PARAMS>{const("sid", 0x22)}{const("a", 0xF1)}{const("b", j)}</PARAMS></REQUEST>')
+                    lreq += (f'<REQUEST ID="EV{i}.rq{j}"><SHORT-NAME>rq{j}</SHORT-NAME><PARAMS>{const("sid", 0x22)}{const("a", 0xF1 if case["layouts"][i] == 1 else 0xF2)}{const("b", j)}</PARAMS></REQUEST>')
                     lres += res
                 local = f"<DIAG-COMMS>{lsvc}</DIAG-COMMS><REQUESTS>{lreq}</REQUESTS><POS-RESPONSES>{lres}</POS-RESPONSES>"
             evs += (f'<ECU-VARIANT ID="EV{i}"><SHORT-NAME>EV{i}</SHORT-NAME>{local}'
@@ -182,10 +183,16 @@ def shape_of(c, p):
     return next(s["shape"] for s in c["services"] if s["j"] == p["svc"])
 
 
-def key_of(case, p):
-    """(how the identification request of a matching parameter is addressed, its bytes): only the matching parameters of
-    base variants choose the addressing, all others use physical addressing"""
-    return (bool(p["phys"]) if case["flavour"] == "base" else True, bytes([0x22, 0xF1, p["svc"]]))
+def key_of(case, p, vi):
+    """(how the identification request of a matching parameter of candidate vi is addressed, its bytes): only the matching
+    parameters of base variants choose the addressing, all others use physical addressing; a candidate with its own
+    identification services (layout 2) sends other bytes under the same service names"""
+    own = case.get("layouts", [0] * 99)[vi] == 2
+    return (bool(p["phys"]) if case["flavour"] == "base" else True, bytes([0x22, 0xF2 if own else 0xF1, p["svc"]]))
+
+
+def key_z(k):
+    return 4 * k[1][2] + (2 if k[1][1] == 0xF2 else 0) + (0 if k[0] else 1)
 
 
 def ecu_to_json(ecu):
@@ -254,7 +261,7 @@ def main(argv=None):
         for _ in range(70 if quick else 900):
             c = gen(rng)
             # the ECU answers per (addressing, request): a functionally addressed request may be answered differently
-            used = sorted({key_of(c, p) for pats in c["variants"] for pat in pats for p in pat})
+            used = sorted({key_of(c, p, vi_) for vi_, pats in enumerate(c["variants"]) for pat in pats for p in pat})
             rqs = sorted(set([(True, bytes([0x22, 0xF1, s["j"]])) for s in c["services"]] + used))
             # every response function over a small alphabet of answers (exhaustive for <= 2 services)
             answers = lambda j: [bytes([0x62, 0xF1, j, 1, 2]), bytes([0x62, 0xF1, j, 2, 1]), bytes([0x62, 0xF1, j, 0, 0]),
@@ -275,7 +282,7 @@ def main(argv=None):
             ecu_t = []
             for rq, rs in ecu.items():
                 resp_ids.setdefault(rs, len(resp_ids) + 1)
-                ecu_t.append([2 * rq[1][2] + (0 if rq[0] else 1), resp_ids[rs]])
+                ecu_t.append([key_z(rq), resp_ids[rs]])
             pid = 0
             m_t = []
             vs = []
@@ -286,9 +293,8 @@ def main(argv=None):
                     for p in pat:
                         pid += 1
                         for rs, rid in resp_ids.items():
-                            m_t.append([pid, rid, ref_match(p, rs, c.get("layouts", [0] * 99)[vi_], shape_of(c, p))])
-                        k_ = key_of(c, p)
-                        pp.append([2 * k_[1][2] + (0 if k_[0] else 1), pid])
+                            m_t.append([pid, rid, ref_match(p, rs, min(1, c.get("layouts", [0] * 99)[vi_]), shape_of(c, p))])
+                        pp.append([key_z(key_of(c, p, vi_)), pid])
                     vp.append(pp)
                 vs.append(vp)
             for uc in (True, False):
@@ -323,10 +329,10 @@ def main(argv=None):
             # the specification
             want = None
             for i, pats in enumerate(c["variants"]):
-                if any(all(ref_match(p, ecu[key_of(c, p)], c.get("layouts", [0] * 99)[i], shape_of(c, p)) for p in pat) for pat in pats):
+                if any(all(ref_match(p, ecu[key_of(c, p, i)], min(1, c.get("layouts", [0] * 99)[i]), shape_of(c, p)) for p in pat) for pat in pats):
                     want = f"EV{i}"
                     break
-            allowed = {key_of(c, p) for pats in c["variants"] for pat in pats for p in pat}
+            allowed = {key_of(c, p, vi_) for vi_, pats in enumerate(c["variants"]) for pat in pats for p in pat}
             res = {}
             bad = None
             for uc in (True, False):
@@ -365,7 +371,7 @@ def main(argv=None):
                 for uc in (True, False):
                     m = mres[(ci, ei, uc)]
                     r, issued = res[uc]
-                    impl = [[] if r[1] is None else [int(r[1][2:])], [2 * rq[2] + (0 if ph else 1) for ph, rq in issued]]
+                    impl = [[] if r[1] is None else [int(r[1][2:])], [key_z((ph, rq)) for ph, rq in issued]]
                     if m != impl:
                         ck.violation(f"implementation and model disagree (cache={uc}): impl {impl} model {m}",
                                      dict(rep, impl=impl, model=m, broken="correspondence Variant.request_loop"),
